@@ -19,7 +19,7 @@ class C18(hc.PProp):
     thorough_wall = 900
     assumptions = ['single worker only: collapsing across SMP workers (Transients, CollapsedForwarding notifications) is not simulated',
                    '"while a fetch is in progress" = the request was sent after the origin received squid\'s first request for the URL and before the origin sent its last byte']
-    expected_probes = ['collapsed_judged', 'bursts_judged']
+    expected_probes = ['collapsed_judged', 'bursts_judged', 'reval_collapsed_judged']
     sim_limit_s = 1200
 
     def plan(self, rng, tier, index):
@@ -40,11 +40,22 @@ class C18(hc.PProp):
             url['sizes'] = [size]; url['body_pace'] = pace
             if faulty and rng.random() < 0.7:
                 url['abort'] = rng.choice(['close', 'reset']); url['abort_frac'] = rng.random()
+            reval = not faulty and rng.random() < 0.4
+            if reval:
+                # second stratum: the cached object goes stale and a burst arrives while its revalidation (answered 304 after a delay) is in progress
+                size = min(size, 5000); pace = 0
+                url.update({'sizes': [size], 'body_pace': 0, 'cc': 'max-age=2', 'bump_on_serve': False, 'nver': 1, 'cond_delay': rng.choice([100000, 300000, 1000000]), 'reval': True})
+                url.pop('abort', None)
             urls.append(url)
             span = delay + 200000 + (size // 1000) * (pace + 50)
             for k in range(rng.randint(2, 20)):
                 rid += 1
                 clients.append({'name': 'c%d' % rid, 'start': rng.choice([0, 0, 100, 2000]) + int(rng.random() ** 2 * span * 1.3), 'steps': [{'id': rid, 'u': u, 'hdrs': []}]})
+            if reval:
+                t2 = int(span * 1.3) + 5000000
+                for k in range(rng.randint(2, 12)):
+                    rid += 1
+                    clients.append({'name': 'c%d' % rid, 'start': t2 + rng.choice([0, 0, 100, 2000]) + int(rng.random() ** 2 * url['cond_delay'] * 1.3), 'steps': [{'id': rid, 'u': u, 'hdrs': [], 'phase': 2}]})
         plan['urls'] = urls
         plan['clients'] = clients
         plan['_lists'] = ['clients']
@@ -95,7 +106,7 @@ class C18(hc.PProp):
                     ps = [p[0] for p in sc.psnd if c1[0] < p[0] < limit]
                     end_seq = ps[-1] if ps else c1[0]
             aborted = bool(url.get('abort'))
-            inwin = [r for r in rs if c1[0] < r.seq_send < (end_seq or 0)]
+            inwin = [r for r in rs if c1[0] < r.seq_send < (end_seq or 0) and not (r.step and r.step.get('phase') == 2)]
             first = [r for r in rs if any(c['seq'] == c1[0] for c in r.contacts)]
             if len(inwin) >= 1:
                 stats['bursts_judged'] += 1
@@ -104,6 +115,28 @@ class C18(hc.PProp):
                 if r.contacts and not aborted:
                     stats['extra_fetches'] += 1
                     V.append(Violation('C18:not-collapsed:%s' % plan['conf']['cache'], 'GET %s for url %d was sent while the fetch started by request %s was in progress, yet caused its own origin request (%s)' % (r.id, u, first[0].id if first else '?', [c['rule'] for c in r.contacts])))
+            # ---- revalidation stratum: requests that arrive while squid's own conditional request for the stale object is being answered
+            rs2 = [r for r in rs if r.step and r.step.get('phase') == 2]
+            if url.get('reval') and len(rs2) >= 2:
+                boundary = min(r.seq_send for r in rs2)
+                later = [x for x in sent if x[2] == u and x[0] > boundary]
+                if later:
+                    c2 = later[0]
+                    end2 = c2[0]
+                    for sc in hist.server_conns():
+                        if any(x[0] == c2[0] for x in sc.rules):
+                            nxt = [x[0] for x in sc.rules if x[0] > c2[0]]
+                            limit = nxt[0] if nxt else 1 << 62
+                            ps = [p[0] for p in sc.psnd if c2[0] < p[0] < limit]
+                            end2 = ps[-1] if ps else c2[0]
+                    inwin2 = [r for r in rs2 if c2[0] < r.seq_send < end2]
+                    if inwin2:
+                        stats['reval_bursts_judged'] = stats.get('reval_bursts_judged', 0) + 1
+                    for r in inwin2:
+                        stats['collapsed_judged'] += 1
+                        stats['reval_collapsed_judged'] = stats.get('reval_collapsed_judged', 0) + 1
+                        if r.contacts:
+                            V.append(Violation('C18:not-collapsed-revalidation:%s' % plan['conf']['cache'], 'GET %s for url %d was sent while the revalidation of the stale cached object (origin rule %s_%d) was in progress, yet caused its own origin request (%s)' % (r.id, u, c2[4], c2[3], [c['rule'] for c in r.contacts])))
             for r in rs:
                 m = r.resp
                 if hc.is_squid_error(m) or m.status != 200 or r.ver is None:
